@@ -212,6 +212,10 @@ class Signal( NamedObject, Connectable ):
           xd.parent_obj = s
           xd.top_level_signal = sd.top_level_signal
           xd.elaborate_top = sd.elaborate_top
+          # a field signal can itself be the target of s.x.f.g //= ..., which
+          # goes through the setattr hook of s.x.f
+          xd.level = sd.level + 1
+          xd.NamedObject_fields = set()
 
           # @bitstruct
           # class SomeMsg:
